@@ -94,7 +94,9 @@ TEXT = {
         note=BASE_NOTE + "The file lock itself (flock through lockedfile) is trusted and exercised, not proved; OS interleavings are sampled."),
     "C15": dict(
         text="Theorems effect_requires_token, refused_has_no_effect, unexpected_token_refused, unix_socket_exempt, "
-             "info_commands_never_effect over the decision model of processSignature and the dispatch order of ControlFunc. Tie: "
+             "info_commands_never_effect over the decision model of processSignature and the dispatch order of ControlFunc; over histories "
+             "(any command sequence from any state): unauthorised_history_changes_nothing, every_effect_is_authorised over the unit state "
+             "machine WorkNode. Tie: "
              "regenerated facts (gate conditions, ShouldVerifySignature, Unix test, per-arm order gate-before-effect, VerifySignature "
              "steps) + differential runs of the real InitFromJSON/ControlFunc on a real Workceptor over the product command x connection "
              "kind x work type x 13 token classes minted by the harness (effects observed: units created/started/cancelled/removed, "
@@ -102,10 +104,13 @@ TEXT = {
         note=BASE_NOTE + "JWT/RSA verification is an oracle (ground truth by construction of the tokens)."),
     "C19": dict(
         text="Theorems redacted_has_no_secret_key, non_secret_unchanged, secret_any_case, redact_idem, refused_before_store / "
-             "stored_otherwise over the model of remoteUnit.Status and AllocateRemoteUnit. Tie: regenerated facts (redaction test, same "
+             "stored_otherwise over the model of remoteUnit.Status and AllocateRemoteUnit; over histories (any sequence of submit, status, "
+             "list, cancel, release, results and restarts, from any state): never_disclosed, reported_is_redacted_submission, "
+             "secrets_only_with_tls over the unit state machine WorkNode. Tie: regenerated facts (redaction test, same "
              "test and its position before AllocateUnit, responses built from Status(), callers of UnredactedStatus) + differential runs "
              "on a real Workceptor: random parameter maps (key case variants, boundary keys), with/without TLS profile, with a restart "
-             "from disk; every status/list response scanned for the secret values.",
+             "from disk; every status/list response scanned for the secret values; and histories of several submissions, restarts, status, "
+             "list, cancel, release and force-release on one node, compared step by step with WorkNode.run.",
         note=BASE_NOTE + "Only remote units carry secret_* parameters; Kubernetes units have their own redaction (outside the anchors)."),
     "C16": dict(
         text="Theorems notice_fields_echo, local_sender_gets_error, notice_published_at_origin, notice_only_to_sender_socket / "
